@@ -78,7 +78,7 @@ int main(int argc, char **argv) {
             cp::PrintOpts po; po.dialect = cp::CIF2; po.booster = *g::chance(30); po.bom = *g::chance(10);
             CaseFile c; cp::PrintInfo info;
             if (!make_case(d, tp, po, c, info)) { count_excluded("unprintable"); RC_DISCARD("unprintable"); }
-            begin_case(c);
+            VH_BEGIN(c);
             classify_case(c, info, d);
             label("cif2");
             if (c.get("bytes").size() < 400) sample(c.get("bytes"));
@@ -93,7 +93,7 @@ int main(int argc, char **argv) {
             cp::PrintOpts po; po.dialect = cp::CIF11; po.magic = *g::range(0, 2); po.protocols = false;
             CaseFile c; cp::PrintInfo info;
             if (!make_case(d, tp, po, c, info)) { count_excluded("unprintable"); RC_DISCARD("unprintable"); }
-            begin_case(c);
+            VH_BEGIN(c);
             classify_case(c, info, d);
             label("cif11");
             if (c.get("bytes").size() < 300) sample(c.get("bytes"));
